@@ -30,6 +30,23 @@ TClauses(ev) ==
           <<"offsets", BagEq(ev.offsets, want)>>,
           <<"extrema", ExtOK(SeqSet(want), ev.extrema)>> >>
 
+OpLin(op) ==
+    LET M(a, b, c, d) == [xx |-> a, xy |-> b, yx |-> c, yy |-> d, den |-> 1, tx |-> 0, ty |-> 0]
+    IN CASE op.o = "scale" -> M(op.sx, 0, 0, op.sy)
+         [] op.o = "mirror" -> (CASE op.ax = "x" -> M(1, 0, 0, -1) [] op.ax = "y" -> M(-1, 0, 0, 1)
+                                  [] OTHER -> M(0, 1, 1, 0))
+         [] op.o = "rotate" -> Linear(Mag(1, 1), FALSE, op.rot)
+         [] OTHER -> Linear(op.mag, op.refl, op.rot)
+
+EClauses(ev) ==
+    LET r == ev.g.r
+        m == OpLin(ev.g.op)
+        want == [i \in DOMAIN Offsets(r) |-> ApplyLin(m, Offsets(r)[i])]
+    IN << <<"lattice", ev.lat>>,
+          <<"count", ev.count = Len(want)>>,
+          <<"offsets", BagEq(ev.offsets, want)>>,
+          <<"extrema", ExtOK(SeqSet(want), ev.extrema)>> >>
+
 AClauses(ev) ==
     LET r == ev.g.r
         offs == Offsets(r)
@@ -44,6 +61,7 @@ Failing(cl) == {cl[i][1] : i \in {j \in DOMAIN cl : ~cl[j][2]}}
 Check(ev) == CASE ev.e = "q" -> Failing(QClauses(ev))
                [] ev.e = "t" -> Failing(TClauses(ev))
                [] ev.e = "a" -> Failing(AClauses(ev))
+               [] ev.e = "e" -> Failing(EClauses(ev))
                [] OTHER -> {ev.e}
 
 TInit == l = 1
